@@ -20,6 +20,8 @@ import PgProofs.C05Opts
 import PgProofs.C05Auto
 import PgProofs.C05SpecRT
 import PgProofs.C05Geno
+import PgGen.C05Fn
+import PgProofs.C05MemSeq
 namespace Pg.C05
 
 /-! ## T-SIG: value specs can be rebuilt from what `to_json` emits -/
@@ -374,6 +376,31 @@ theorem C05_dnaspec_roundtrip_opts (o : JOpts) (gt : GenoText) (hgt : gt.OK) (g 
     fromJson genoEnv ap (toJsonO o genoEnv (specTree gt g)) = .ok (specTree gt g) := by
   obtain ⟨h1, h2, h3⟩ := spec_good gt hgt g
   exact C05_roundtrip_opts o genoEnv genoEnv_wf ap _ h1 h2 (.inr h3)
+
+/-! ## Functions as leaves: by code or by name -/
+
+/-- For any choice of tests that contains both the `'<lambda>'` name test and the `CO_NESTED` test,
+every function that is written BY NAME — module-level or class-body `def` — can be found again by
+its qualified name; lambdas (at module scope, in a class body, nested) and nested defs go by code. -/
+theorem C05_fn_sound (t : FnTests) (h1 : t.lambdaName = true) (h2 : t.coNested = true) (o : FnOrigin)
+    (h : writtenByCode t o = false) : o.resolvableByName = true := by
+  cases o <;> simp_all [writtenByCode, FnOrigin.isLambda, FnOrigin.isNested, FnOrigin.resolvableByName]
+
+/-- Generated obligation over the tests extracted from the current `_function_to_json`: what it
+writes by name is resolvable by name, for every origin of a plain function. -/
+theorem C05_fn_table : ∀ o ∈ FnOrigin.all, writtenByCode fnTests o = false → o.resolvableByName = true := by
+  decide
+
+theorem C05_fn_origins_complete : ∀ o : FnOrigin, o ∈ FnOrigin.all := by
+  intro o; cases o <;> decide
+
+/-- Without the name test (seeded change C05-8: `CO_NESTED` alone) a lambda at module scope or in a
+class body — e.g. an unchanged `Callable(default=lambda …)` field default — is written as
+`module.<lambda>`, which no lookup can resolve. -/
+theorem C05_fn_counterexample :
+    writtenByCode ⟨false, true⟩ .moduleLambda = false ∧ FnOrigin.moduleLambda.resolvableByName = false ∧
+    writtenByCode ⟨false, true⟩ .classBodyLambda = false ∧ FnOrigin.classBodyLambda.resolvableByName = false := by
+  decide
 
 /-! ## `pg.DNA` (compact JSON form, root metadata) -/
 
@@ -1014,6 +1041,47 @@ theorem C05_pinned_append :
     (run FsCfg.patched [] [.seqWrite "/mem/s".toList .w [['1'], ['2']], .seqWrite "/mem/s".toList .a [['3']],
                           .seqRead "/mem/s".toList]).2 = [.unit, .unit, .records [['1'], ['2'], ['3']]] := by
   decide
+
+/-! ## Histories around serialisation: `to_json` has no memory -/
+
+/-- WHAT IS SAVED IS WHAT IS LOADED, at every point of every history: each output of the history
+loads back (with `allow_partial`, as `pg.load` does) to the value that was current when it was
+written — provided that value is well formed and encodable. The implementation is compared with
+this memory-less model on generated histories (serialise, mutate at depth 1–3, query the memoised
+derived state, serialise again; all option combinations). -/
+theorem C05_history (env : ClassEnv) (hwf : env.WF = true) :
+    ∀ (ops : List HistOp) (t : Tree), ∀ r ∈ histRun env t ops,
+      Conforms env r.1 = true → Encodable false r.1 = true → fromJson env true r.2 = .ok r.1 := by
+  intro ops
+  induction ops with
+  | nil => intro t r hr; cases hr
+  | cons op ops ih =>
+    intro t r hr hc he
+    cases op with
+    | ser o =>
+      simp only [histRun, List.mem_cons] at hr
+      rcases hr with rfl | hr
+      · exact C05_roundtrip_opts o env hwf true _ hc he (.inl rfl)
+      · exact ih t r hr hc he
+    | put t' => exact ih t' r hr hc he
+
+/-! ## Record sequences in memory (`.mem`, `.mem@N`): a read returns fresh values -/
+
+/-- READ YOUR APPENDS for the memory sequence store, for every history over any set of paths: a
+read of `p` returns exactly the records added to `p` since its last 'w' (`specRecs`). -/
+theorem C05_memseq_read (p : Path) (before : List SOp) :
+    (sStep (sRun MemSeq.empty before).1 (.read p)).2 = .records (specRecs p before []) := by
+  simp only [sStep]
+  rw [sRun_state p before MemSeq.empty]
+  rfl
+
+/-- LATER READS DO NOT DEPEND ON WHAT CALLERS DID TO EARLIER RESULTS: deleting every
+"mutate a returned record in place" step from a history changes neither the store nor the result of
+any read. (A read hands out fresh values; the store holds the raw records.) -/
+theorem C05_reads_fresh (ops : List SOp) :
+    (sRun MemSeq.empty ops).1 = (sRun MemSeq.empty (ops.filter notMutate)).1 ∧
+    (sRun MemSeq.empty ops).2.filter isRead = (sRun MemSeq.empty (ops.filter notMutate)).2.filter isRead :=
+  sRun_erase_mutations ops MemSeq.empty
 
 /-! ## Open handles as state (F130) -/
 
